@@ -3,7 +3,7 @@
 // a failed submission never runs the task and yields an invalid future.
 //
 // Episode kinds
-//   pool       ThreadPoolExecutor: workers 1-8, global capacity 1-64, local capacity {0,1,4,4096}, stealing on/off,
+//   pool       ThreadPoolExecutor: workers 1-8, global capacity 1-64, local capacity {0,1,4,64; thorough also 512,4096}, stealing on/off,
 //              balance interval {unset,0,1ms}; 1-6 external submitter threads (execute/submit with plain functions,
 //              member functions, functors, coroutine functions / functors); tasks spawn children from inside the
 //              workers (depth <= 4); stop() after the external submitters were joined while tasks still run and
@@ -14,7 +14,7 @@
 //
 // Configuration rule (DESIGN §5 C07): a worker that submits into the bounded GLOBAL queue blocks when it is full --
 // with every worker doing so nobody pops: documented behaviour, not a defect. Worker-side spawning is therefore only
-// generated when the children are absorbed by the local queues (local capacity 4096 >= tasks of the episode) or when
+// generated when the children are absorbed by the local queues (local capacity >= 64 >= tasks of the episode) or when
 // the real global capacity exceeds every task of the episode plus the stop markers.
 //
 // Oracles (at the return of stop() / join() / the submission for inplace)
@@ -191,14 +191,6 @@ void submit_task(World& w, int32_t parent, uint8_t depth, vf::Rng& rng) {
   // Nor may the harness hold its future: babylon asserts in ~Promise that nobody waits for a promise that is dropped
   // unset (debug builds abort), and dropping tasks submitted after stop() began is the documented behaviour.
   if (parent >= 0 && w.cfg.type == 0 && w.cfg.lcap < 64) r.kind = uint8_t(rng.below(K_EXEC_FN));
-#ifndef NDEBUG
-  // Refused execute() of a coroutine returns a valid future and drops the promise unset (the genuine defect reported
-  // as failed-submission:future-valid:coroutine-execute from the NDEBUG variant): with asserts on, the same defect
-  // aborts the process in ~Promise. The assert builds therefore keep to the other nine paths on refusing executors.
-  if (w.cfg.type == 3) {
-    while (r.kind == K_EXEC_CORO_FN || r.kind == K_EXEC_CORO_FUNCTOR) r.kind = uint8_t(rng.below(K_NUM));
-  }
-#endif
   r.depth = depth;
   r.parent = parent;
   r.phase = uint8_t(w.cur_phase.load(std::memory_order_relaxed));
